@@ -73,6 +73,8 @@ def render_link(l):
         k = _prefix(l["orders"][a["oi"] - 1]) + a["an"]
         keys[i + 1] = k
         d = {"resname": "|".join(a["rn"])}
+        if a.get("ty"):           # the link atom asks for an atom type
+            d["atype"] = a["ty"]
         if a.get("mk"):           # a residue-level attribute of the sequence file, handed down to the atoms of the residue
             d["mark"] = a["mk"]
         if (i + 1) in l["del"]:
